@@ -298,12 +298,85 @@ def d5_cohesion_sampler(ctx):
     ctx.check(bool(re.fullmatch(r"(\w+) < flip <= \w+\[\w+ \+ 1\]", k)), wb, tests[0] if tests else wb.node, "bin test is the half-open interval lo < flip <= hi", k, f"bin test is `{k}`")
 
 
+def d6_model_parameters(ctx):
+    """Constructor-level wiring the distribution claims rest on."""
+    prog = ctx.prog
+    want = ("{bloc: combine_preference_intervals([self.pref_intervals_by_bloc[bloc][b] for b in self.blocs], "
+            "[self.cohesion_parameters[bloc][b] for b in self.blocs]) for bloc in self.blocs}")
+    seen = {}
+    for cname in ("short_name_PlackettLuce", "name_BradleyTerry", "name_Cumulative"):
+        f = prog.find_func(f"{cname}.__init__")
+        pm = astx.parents(f.node)
+        st = [n for n in astx.walk_own(f.node) if isinstance(n, ast.Assign) and astx.u(n.targets[0]) == "self.pref_interval_by_bloc"]
+        comb = [n for n in st if isinstance(n.value, ast.DictComp)]
+        good = False
+        d = ""
+        if len(comb) == 1:
+            dc = comb[0].value
+            bloc = astx.u(dc.key)
+            call = dc.value
+            if isinstance(call, ast.Call) and astx.call_name(call) == "combine_preference_intervals" and len(call.args) == 2:
+                a0, a1 = call.args
+                ok0 = isinstance(a0, ast.ListComp) and astx.u(a0.generators[0].iter) == "self.blocs" and astx.u(a0.elt) == f"self.pref_intervals_by_bloc[{bloc}][{astx.u(a0.generators[0].target)}]"
+                ok1 = isinstance(a1, ast.ListComp) and astx.u(a1.generators[0].iter) == "self.blocs" and astx.u(a1.elt) == f"self.cohesion_parameters[{bloc}][{astx.u(a1.generators[0].target)}]"
+                good = ok0 and ok1 and astx.u(dc.generators[0].iter) == "self.blocs" and astx.u(dc.generators[0].target) == bloc
+            d = astx.u(dc)[:160]
+            seen[cname] = astx.u(dc)
+        ctx.check(good, f, comb[0] if comb else f.node, f"{cname}: a bloc's interval = its slate intervals combined with its own cohesion row, both listed over self.blocs", d,
+                  f"combined interval is built as `{d}`; documented combine([intervals[bloc][b] for b in blocs], [cohesion[bloc][b] for b in blocs])")
+        # flat dictionaries of intervals are used as they are
+        flat = [n for n in st if astx.u(n.value) == "self.pref_intervals_by_bloc"]
+        good = False
+        if len(flat) == 1:
+            lits = literals(Normalizer(f.node, inline=False).conj(astx.path_condition(f.node, flat[0], pm)))
+            good = lits == {"truthy(isinstance(self.pref_intervals_by_bloc.values()[0], PreferenceInterval))"}
+        ctx.check(good, f, flat[0] if flat else f.node, f"{cname}: already-combined intervals are used unchanged", "", "the flat-interval branch changed")
+    ctx.check(len(set(seen.values())) == 1 and len(seen) == 3, None, None, "sibling agreement: the three name-models combine intervals identically", str(sorted(seen)),
+              f"the combine expressions differ between {sorted(seen)}")
+    # complete rankings: name-PL asks for as many positions as there are candidates
+    f = prog.find_func("name_PlackettLuce.__init__")
+    bl = {bool_key(Normalizer(f.node, inline=False).conj(astx.path_condition(f.node, st, astx.parents(f.node), carried=False))): astx.u(dv)
+          for st, dv in astx.defs_of(f.node, "ballot_length") if dv is not None}
+    good = bl.get("in('candidates', data)") == "len(data['candidates'])" and \
+        any(v == "sum((len(c_list) for c_list in data['slate_to_candidates'].values()))" for v in bl.values())
+    call = facts_super(f)
+    good = good and call is not None and {k.arg: astx.u(k.value) for k in call.keywords if k.arg}.get("ballot_length") == "ballot_length"
+    ctx.check(good, f, f.node, "name-PL ballots are as long as the candidate list", str(bl), f"ballot_length is {bl}")
+    # impartial cultures
+    for cname, alpha in (("ImpartialCulture", "float('inf')"), ("ImpartialAnonymousCulture", "1")):
+        f = prog.find_func(f"{cname}.__init__")
+        call = facts_super(f)
+        got = {k.arg: astx.u(k.value) for k in call.keywords if k.arg} if call is not None else {}
+        ctx.check(got.get("alpha") == alpha, f, call or f.node, f"{cname}: Dirichlet alpha = {alpha}", str(got), f"{cname} passes {got}")
+    f = prog.find_func("BallotSimplex.__init__")
+    pm = astx.parents(f.node)
+    N = Normalizer(f.node, inline=False)
+    defs = {}
+    for n in astx.walk_own(f.node):
+        if isinstance(n, ast.Assign) and astx.u(n.targets[0]) == "self.alpha":
+            defs[bool_key(N.conj(astx.path_condition(f.node, n, pm, carried=False)))] = astx.u(n.value)
+    good = defs.get("True") == "alpha" and any("inf" in k and v in ("1e+20", "1e20", "1e+20") for k, v in defs.items()) and any(k.startswith("eq(alpha, 0)") or "eq(0, alpha)" in k for k in defs)
+    ctx.check(good, f, f.node, "BallotSimplex: alpha=inf is replaced by a huge finite value (near-uniform), alpha=0 by a tiny one", str(defs), f"alpha handling is {defs}")
+    f = prog.find_func("BallotSimplex.generate_profile")
+    dr = [n for n in astx.walk_own(f.node) if isinstance(n, ast.Call) and astx.u(n.func).endswith(".dirichlet")]
+    good = len(dr) == 1 and astx.u(dr[0].args[0]) == "[self.alpha] * len(perm_rankings)"
+    perms = astx.unique_def(f.node, "perm_set")
+    good = good and perms is not None and astx.u(perms) == "it.permutations(self.candidates, len(self.candidates))"
+    ctx.check(good, f, dr[0] if dr else f.node, "ballot-simplex models draw one symmetric Dirichlet weight per complete ranking", "", "Dirichlet parameter vector or the ranking enumeration changed")
+
+
+def facts_super(f):
+    from vk import facts
+    return facts.super_init_call(f)
+
+
 RULES = [
     ("C16.D1", d1_alignment, 12, "population/probability alignment at every weighted draw in the package (reaching definitions incl. loop-carried)"),
     ("C16.D2", d2_metropolis, 7, "MCMC kernels: uniform adjacent proposal, swap move, Metropolis acceptance (min(1,r) or reciprocal pair)"),
     ("C16.D3", d3_spatial_sort, 3, "spatial models rank candidates by ascending distance"),
     ("C16.D4", d4_interval_indexing, 10, "slate models use the voter bloc's interval for each slate; crossover / Cambridge splits"),
     ("C16.D5", d5_cohesion_sampler, 6, "cohesion sampler: parallel lists stay parallel, renormalised, half-open bins"),
+    ("C16.D6", d6_model_parameters, 11, "constructor wiring: combined intervals (3 siblings), name-PL length, impartial-culture alphas, Dirichlet vector"),
 ]
 
 BG = "src/votekit/ballot_generator.py"
@@ -325,6 +398,12 @@ FAULTS = [
     ("cohesion sampler no renormalise", [(BG, "                values = [v / total_value_sum for v in values]\n", "")], "C16.D5"),
     ("cohesion bins closed on the left", [(BG, "            if bin < flip <= dist_bins[i + 1]:", "            if bin <= flip < dist_bins[i + 1] - 0.01:")], "C16.D5"),
     ("AC cross/bloc split swapped", [(BG, "                if i < num_cross_ballots:\n                    # alternate", "                if i < num_bloc_ballots:\n                    # alternate")], "C16.D4"),
+]
+FAULTS += [
+    ("combined interval uses other bloc's cohesion row", [(BG, "                    [self.cohesion_parameters[bloc][b] for b in self.blocs],\n                )\n                for bloc in self.blocs\n            }\n\n    def generate_profile(\n        self, number_of_ballots: int, by_bloc: bool = False\n    ) -> Union[PreferenceProfile, Tuple]:\n        \"\"\"\n        Args:\n            number_of_ballots (int): The number of ballots to generate.\n            by_bloc (bool): True if you want the generated profiles returned as a tuple\n                ``(pp_by_bloc, pp)``, where ``pp_by_bloc`` is a dictionary with keys = bloc strings\n                and values = ``PreferenceProfile`` and ``pp`` is the aggregated profile. False if\n                you only want the aggregated profile. Defaults to False.\n\n        Returns:\n            Union[PreferenceProfile, Tuple]\n        \"\"\"\n        # the number of ballots per bloc is determined by Huntington-Hill apportionment\n        bloc_props",
+       "                    [self.cohesion_parameters[b][bloc] for b in self.blocs],\n                )\n                for bloc in self.blocs\n            }\n\n    def generate_profile(\n        self, number_of_ballots: int, by_bloc: bool = False\n    ) -> Union[PreferenceProfile, Tuple]:\n        \"\"\"\n        Args:\n            number_of_ballots (int): The number of ballots to generate.\n            by_bloc (bool): True if you want the generated profiles returned as a tuple\n                ``(pp_by_bloc, pp)``, where ``pp_by_bloc`` is a dictionary with keys = bloc strings\n                and values = ``PreferenceProfile`` and ``pp`` is the aggregated profile. False if\n                you only want the aggregated profile. Defaults to False.\n\n        Returns:\n            Union[PreferenceProfile, Tuple]\n        \"\"\"\n        # the number of ballots per bloc is determined by Huntington-Hill apportionment\n        bloc_props")], "C16.D6"),
+    ("impartial culture alpha 1", [(BG, "        super().__init__(alpha=float(\"inf\"), **data)", "        super().__init__(alpha=1.0, **data)")], "C16.D6"),
+    ("dirichlet one short", [(BG, "np.random.default_rng().dirichlet([self.alpha] * len(perm_rankings))", "np.random.default_rng().dirichlet([self.alpha] * len(self.candidates))")], "C16.D"),
 ]
 BENIGN = [
     ("PL values via local dict", [(BG, "            pref_interval_values = [\n                self.pref_interval_by_bloc[bloc].interval[c] for c in non_zero_cands\n            ]", "            iv = self.pref_interval_by_bloc[bloc].interval\n            pref_interval_values = [iv[c] for c in non_zero_cands]")]),
